@@ -1514,3 +1514,51 @@ Q(name="e2_endpoint_retry_token", props=["C14"], func=r"endpoint\.rs:61:1[^>]*>:
   functions=["Endpoint::retry"], pre=lambda c: "true", post=retry_post,
   bounds="every attempt: a Retry is produced exactly when Incoming::may_retry holds; the token sealed into it is a Retry token for the attempt's remote address (IP and port), the destination CID of its Initial and the server's current time; the attempt is cleaned up; the datagram is addressed to that same remote; RNG, CID generator, token key, header encoding and retry tag opaque",
   replay=("endpoint_retry_token_native", lambda m: [dict(x=0)]))
+
+
+# ------------------------------------------------------------------ C07 / C14 / C09: the endpoint's treatment of a first Initial
+def hfp2_post(c, p):
+    st = p.p.state
+    n = c.inp("_2", BV64)                                   # datagram length
+    has_cfg = eq(c.inp("*_1.%d#discr" % c.field("endpoint.rs", "Endpoint", "server_config"), I64), bv(1))
+    sr = p.called(r"Endpoint::stateless_reset$")
+    ic = p.called(r"Endpoint::initial_close$")
+    fh = p.called(r"IncomingToken::from_header$")
+    ins = p.called(r"insert_initial_incoming$")
+    slab = p.called(r"Slab.*::insert")
+    rd = lambda k, s: c.ex.read_key(st, k, s).t
+    some = eq(rd("_0#discr", I64), bv(1))
+    E = c.ex.enums["DatagramEvent"]
+    kind = rd("_0@Some.0#discr", I64)
+    conj = []
+    if sr:
+        # not a server: the only possible reaction is a stateless reset, sized by THIS datagram's length
+        ok = len(sr) == 1 and not ic and not ins and sr[0][1][2][0] == "val" and sr[0][1][2][1].t == n and sr[0][1][3] == ("agg", "_4")
+        return and_(not_(has_cfg), "true" if ok else "false")
+    conj.append(has_cfg)
+    short = ult(n, bv(1200))
+    # an Initial in a datagram below 1200 bytes is dropped without any response (anti-amplification, RFC 9000 14.1)
+    if ic or fh or ins:
+        conj.append(not_(short))
+    conj.append(imp(short, not_(some)))
+    if fh:
+        # the token is validated against the source address of this very datagram
+        if len(fh) != 1 or fh[0][1][2] != ("agg", "_4.0"):
+            return "false"
+    if ins:
+        # a connection attempt is announced exactly when a route for the Initial's destination CID was installed
+        # for a freshly allocated buffer slot
+        ok = len(ins) == 1 and len(slab) == 1 and len(fh) == 1 and ins[0][1][2][0] == "val" and not ic
+        conj.append("true" if ok else "false")
+        conj.append(and_(some, eq(kind, bv(E.index("NewConnection")))))
+    else:
+        conj.append(not_(and_(some, eq(kind, bv(E.index("NewConnection"))))))
+    return and_(*conj)
+
+
+Q(name="e2_endpoint_first_initial", props=["C07", "C14", "C09"], func=r"endpoint\.rs:61:1[^>]*>::handle_first_packet$",
+  pure=[r"cids_exhausted$", r"PartialDecode::dst_cid$", r"PartialDecode::initial_header$", r"reserved_bits_valid$"],
+  allowed_panics=r"unwrap_failed|abort|handle_error|non-initial|attempt to", ignore_untranslatable=r"^cast kind Transmute",
+  functions=["Endpoint::handle_first_packet"], pre=lambda c: ule(c.inp("*_1.%d#discr" % c.field("endpoint.rs", "Endpoint", "server_config"), I64), bv(1)), post=hfp2_post,
+  bounds="every datagram length, configuration and verdict of key derivation / header decoding / token validation (all opaque): without a server configuration the only reaction is a stateless reset sized by this datagram; an Initial in a datagram shorter than 1200 bytes causes no response and no state; the token is checked against this datagram's source address; NewConnection is returned iff a route for the Initial's DCID was installed for a fresh buffer slot; one error-string construction path (a pointer transmute inside the panic message) is outside",
+  replay=("endpoint_first_initial_native", lambda m: [dict(len_=l) for l in (1199, 1200, 300)]))
